@@ -111,11 +111,27 @@ class FracLoopMixin:
     pass
 
 
-def make_loop(env):
+LATENCY = Fraction(1, 100)  # timers due within this window of the one being run may share its loop iteration
+
+
+def _batch_hook(env):
+    n = [0]
+
+    def hook(first, other):
+        if not (other._when <= first._when + LATENCY):  # may fork (symbolic times)
+            return False
+        n[0] += 1
+        return env.flag(f"batch_{n[0]}")
+
+    return hook
+
+
+def make_loop(env, cfg=None):
     from symx.vloop import VLoop
 
+    hook = _batch_hook(env) if (cfg or {}).get("latency") else None
     if env.symbolic:
-        return VLoop(0)
+        return VLoop(0, batch_hook=hook)
 
     class FracLoop(VLoop):
         """exact rational clock for replay (floats such as 0.5 convert exactly)"""
@@ -126,7 +142,7 @@ def make_loop(env):
         def call_at(self, when, cb, *args, context=None):
             return VLoop.call_at(self, Fraction(when), cb, *args, context=context)
 
-    return FracLoop(Fraction(0))
+    return FracLoop(Fraction(0), batch_hook=hook)
 
 
 # ------------------------------------------------------------------------------------------
@@ -295,11 +311,25 @@ class _Clock:
         return datetime(2024, 1, 1) + timedelta(microseconds=cls.n)
 
 
+def _site(e):
+    """'function: source line' of the innermost library frame an exception was raised in"""
+    import linecache
+    import traceback
+
+    try:
+        tb = [f for f in traceback.extract_tb(e.__traceback__) if "ramses_" in f.filename] or traceback.extract_tb(e.__traceback__)
+        f = tb[-1]
+        text = " ".join(linecache.getline(f.filename, f.lineno + k).strip() for k in range(3))
+        return f"{f.name}: {text[:90]}"
+    except Exception:  # noqa: BLE001
+        return "?"
+
+
 def _excs(loop):
     out = []
     for c in loop.exc_contexts:
         e = c.get("exception")
-        out.append((f"{type(e).__name__}: {e}" if e is not None else str(c.get("message")))[:70])
+        out.append((f"{type(e).__name__} in {_site(e)}" if e is not None else str(c.get("message")))[:140])
     return out
 
 
@@ -314,7 +344,7 @@ def run_episode(env, cfg):
     from ramses_tx.typing import QosParams
 
     FSM.dt = _Clock
-    loop = make_loop(env)
+    loop = make_loop(env, cfg)
     with running(loop):
         proto = PortProtocol(lambda m: None, disable_qos=cfg.get("disable_qos", False))
     ether = Ether(env, loop, proto, cfg)
@@ -325,12 +355,16 @@ def run_episode(env, cfg):
     prios = cfg.get("priorities")
     callers = []
     for i in range(ncmd):
-        cmd = mk_cmd(kinds[i], i)
-        ether.cmds[str(cmd)] = i
-        ether.cmds[cmd._frame] = i
+        cmd = mk_cmd(kinds[i], 0 if cfg.get("twins") else i)
+        ether.cmds.setdefault(str(cmd), i)
+        ether.cmds.setdefault(cmd._frame, i)
         T = cfg.get("timeout", 20.0)
+        if isinstance(T, (list, tuple)):
+            T = T[i]
         if T == "sym":
-            T = env.real(f"T{i}", Fraction(1, 100), 30)
+            T = env.real(f"T{i}", Fraction(1, 100), cfg.get("Tmax", 30))
+            if not env.symbolic:
+                T = Fraction(float(T))  # the library is given a float (as a real caller would), the oracle the same value
         if prios == "sym":
             pr = env.choice(f"prio{i}", [Priority.HIGH, Priority.DEFAULT, Priority.LOW])
         else:
@@ -344,7 +378,7 @@ def run_episode(env, cfg):
         if c["i"] > 0 and cfg.get("stagger"):
             await asyncio.sleep(c["start"])
         c["t_start"] = loop.time()
-        qos = QosParams(max_retries=cfg.get("max_retries", 3), timeout=c["T"], wait_for_reply=cfg.get("wait_for_reply", None))
+        qos = QosParams(max_retries=cfg.get("max_retries", 3), timeout=c["T"] if env.symbolic else float(c["T"]), wait_for_reply=cfg.get("wait_for_reply", None))
         try:
             pkt = await proto.send_cmd(c["cmd"], priority=c["prio"], qos=qos)
             c["outcome"] = ("pkt", ether.owner.get(id(pkt), ("?", "unknown")))
@@ -444,6 +478,36 @@ def run_episode(env, cfg):
         obs["probe"] = res.get("r", ("hung",))
         obs["state_after_probe"] = type(ctxt._state).__name__
         obs["loop_excs"] = _excs(loop)
+
+        # phase 4 (C07/C08): a command to a device that never answers, short caller timeout: whatever
+        # the episode left behind (back-off level, counters), it must end by its own timeout
+        if obs["probe"][0] == "pkt" and obs["state_after_probe"] == "IsInIdle":
+            ether.cfg = {"deliveries": 0}
+            ether.budget = 0
+            dcmd = mk_cmd("RQ", 10)
+            ether.cmds[dcmd._frame] = "dead"
+            res2 = {}
+            n_before = len(ether.writes)
+
+            async def dead():
+                t_a = loop.time()
+                try:
+                    await proto.send_cmd(dcmd, qos=QosParams(max_retries=3, timeout=Fraction(3, 10) if env.symbolic else 0.3, wait_for_reply=True))
+                    res2["r"] = ("pkt",)
+                except exc.ProtocolError as e:
+                    res2["r"] = ("err", type(e).__name__)
+                except BaseException as e:  # noqa: BLE001
+                    if isinstance(e, KeyboardInterrupt):
+                        raise
+                    res2["r"] = ("bad-exc", type(e).__name__)
+                res2["dt"] = loop.time() - t_a
+
+            dtk = loop.create_task(dead())
+            loop.run(until=dtk)
+            loop.run()
+            obs["dead"] = (res2.get("r", ("hung",)), res2.get("dt"), len(ether.writes) - n_before)
+            obs["state_after_dead"] = type(ctxt._state).__name__
+            obs["loop_excs"] = _excs(loop)
     return obs
 
 
@@ -470,19 +534,46 @@ def oracle_c07(env, cfg, obs):
         if o[0] == "pkt":
             owner, kind = o[1]
             # an equal-header packet (a repeat / stale copy of this command's echo or reply) belongs too
-            env.check(owner == i and kind in ("echo", "reply", "stray-old-echo", "stray-old-reply"), "C07:packet-belongs-to-this-command", info=str(o))
+            mine = (owner == i) or (cfg.get("twins") and owner == 0)  # twins: equal frames, the packets belong to both
+            env.check(mine and kind in ("echo", "reply", "stray-old-echo", "stray-old-reply"), "C07:packet-belongs-to-this-command", info=str(o))
             if kind == "echo" and effective_wait_for_reply(cfg, c["kind"]) and c["kind"] in ("RQ", "W"):
                 env.check(False, "C07:reply-awaited-but-echo-returned", info=str(o))
         # bounded time: min(timeout, 20) from the call
         limit = env.min_(c["T"], 20)
+        if cfg.get("latency"):
+            limit = limit + LATENCY  # a timer that shares a late loop iteration fires late by at most the modelled latency
         env.check(c["t_done"] - c["t_start"] <= limit, "C07:within-timeout")
 
 
+    if "dead" in obs:
+        r, dt_, nw = obs["dead"]
+        env.check(r[0] == "err", "C07:later-call-to-a-silent-device-ends-with-a-protocol-error", info=str(r))
+        if dt_ is not None:
+            env.check(dt_ <= (Fraction(3, 10) if env.symbolic else Fraction(0.3)) + (LATENCY if cfg.get("latency") else 0), "C07:later-call-within-its-timeout", info=str(dt_))
+
+
 def oracle_c08(env, cfg, obs):
+    if "dead" in obs:
+        env.check(obs["dead"][2] <= 4, "C08:no-more-than-budget(later-call)", info=obs["dead"][2])
     limit = 1 + min(cfg.get("max_retries", 3), 3)
     per = {}
     for (t, ci, fr) in obs["writes"]:
         per.setdefault(ci, []).append(t)
+    if cfg.get("twins"):
+        # two equal frames from two callers: transmissions cannot be attributed to one of them; the
+        # budget holds for their sum, and neither may be failed before its own retries/timeout
+        ws = per.get(0, [])
+        env.check(len(ws) <= limit * len(obs["callers"]), "C08:no-more-than-budget", info=len(ws))
+        for c in obs["callers"]:
+            o = c["outcome"]
+            if c["i"] in obs["hung"] or o is None or o[0] != "err":
+                continue
+            if o[2] == "caller-timeout":
+                env.check(c["t_done"] - c["t_start"] >= env.min_(c["T"], 20), "C08:fewer-only-if-timeout")
+            elif o[2] == "max-retries":
+                # retries exhausted needs the full back-off sequence of this command: at least 0.5 s per allowed attempt
+                env.check(c["t_done"] - c["t_start"] >= 0.5 * limit, "C08:exactly-budget-when-retries-exhausted", info=str(o))
+        return
     for c in obs["callers"]:
         i = c["i"]
         if i in obs["hung"]:
@@ -542,6 +633,8 @@ def oracle_c09(env, cfg, obs):
         p = obs["probe"]
         env.check(p[0] == "pkt" and p[1][0] == "probe" and p[1][1] in ("echo", "reply"), "C09:probe-succeeds", info=str(p))
         env.check(obs["state_after_probe"] == "IsInIdle", "C09:idle-after-probe", info=obs["state_after_probe"])
+    if "dead" in obs:
+        env.check(obs["state_after_dead"] == "IsInIdle", "C09:idle-after-a-failed-send", info=obs["state_after_dead"])
 
 
 ORACLES = {"C07": oracle_c07, "C08": oracle_c08, "C09": oracle_c09}
@@ -572,7 +665,8 @@ def replay_episode(prop, cfg, cex, label):
         "callers": [(c["i"], c["outcome"], float(c["t_done"]) if c["t_done"] is not None else None) for c in obs["callers"]],
         "state": obs["state"], "loop_excs": obs["loop_excs"][:2], "probe": obs.get("probe"),
     }
-    return {"reproduced": label in failed, "observed": f"failed={sorted(set(failed))} {desc}"[:900], "signature": None, "failed": failed, "infos": [str(i)[:100] for l, i in env.failed if l == label][:2]}
+    sites = list(obs["loop_excs"][:1]) if ("exception" in label or "internal" in label or "consistency" in label) else []
+    return {"reproduced": label in failed, "observed": f"failed={sorted(set(failed))} {desc}"[:900], "signature": None, "failed": failed, "infos": [str(i)[:100] for l, i in env.failed if l == label][:2], "sites": sites}
 
 
 # ------------------------------------------------------------------------------------------
@@ -612,8 +706,23 @@ def configs(prop, tier):
     out.append(("two[r=1,prio=sym]", dict(ncmd=2, max_retries=1, wait_for_reply=True, priorities="sym", check_order=True, deliveries=2, probe=True)))
     out.append(("two[r=0,w=False,stagger]", dict(ncmd=2, max_retries=0, wait_for_reply=False, stagger=2, deliveries=2, probe=True)))
     out.append(("three[r=0,prio=sym]", dict(ncmd=3, max_retries=0, wait_for_reply=False, priorities="sym", check_order=True, deliveries=2 if not thorough else 3, probe=True)))
+    # a queued caller timing out while another command is in flight; then the probes
+    out.append(("two[r=1,T=sym]", dict(ncmd=2, max_retries=1, wait_for_reply=True, timeout=[20.0, "sym"], deliveries=2, probe=True)))
+    # two callers, the transport goes away while one is still queued
+    out.append(("two[r=1,disconnect]", dict(ncmd=2, max_retries=1, wait_for_reply=True, disconnect=3, deliveries=2, probe=True)))
+    # two callers sending the same frame (two distinct Command objects), the second with its own timeout
+    out.append(("twins[r=3,T=sym]", dict(ncmd=2, twins=True, max_retries=3, wait_for_reply=False, timeout=[20.0, "sym"], deliveries=1, probe=True)))
+    # same priority, different caller timeouts: still first come first served
+    out.append(("three[r=0,T=sym,fifo]", dict(ncmd=3, max_retries=0, wait_for_reply=False, timeout=[20.0, "sym", "sym"], Tmax=3, check_order=True, deliveries=1, probe=True)))
+    # loop latency: timers due within 10 ms of one another may run in the same loop iteration, i.e. before
+    # the callbacks the first one deferred with call_soon (coincident echo timer / caller timeout / disconnect)
+    out.append(("lat[r=0,T=sym]", dict(max_retries=0, wait_for_reply=True, timeout="sym", deliveries=1, latency=True, probe=True)))
+    out.append(("lat[r=1,w=True]", dict(max_retries=1, wait_for_reply=True, deliveries=2, latency=True, probe=True)))
+    out.append(("lat[r=1,disconnect,T=sym]", dict(max_retries=1, wait_for_reply=True, timeout="sym", disconnect=2, deliveries=1, latency=True, probe=True)))
     if thorough:
-        out.append(("two[r=1,T=sym]", dict(ncmd=2, max_retries=1, wait_for_reply=True, timeout="sym", deliveries=2, probe=True)))
+        out.append(("two[r=1,T=sym,both]", dict(ncmd=2, max_retries=1, wait_for_reply=True, timeout="sym", deliveries=2, probe=True)))
+        out.append(("lat[r=3,w=True,T=sym]", dict(max_retries=3, wait_for_reply=True, timeout="sym", deliveries=2, latency=True, probe=True)))
+        out.append(("lat[two,r=1,T=sym]", dict(ncmd=2, max_retries=1, wait_for_reply=True, timeout=[20.0, "sym"], deliveries=2, latency=True, probe=True)))
         out.append(("two[r=3,prio=sym]", dict(ncmd=2, max_retries=3, wait_for_reply=True, priorities="sym", check_order=True, deliveries=2, probe=True)))
         out.append(("two[r=1,disconnect]", dict(ncmd=2, max_retries=1, wait_for_reply=True, disconnect=4, reconnect=True, deliveries=2, probe=True)))
         out.append(("one[r=3,wfail2]", dict(max_retries=3, wait_for_reply=True, write_failures=2, deliveries=2, probe=True)))
@@ -651,6 +760,8 @@ def replay_item(prop, item):
     r = replay_episode(prop, cfg, item["cex"], item["label"])
     tag = "reconnect" if cfg.get("reconnect") else item["group"]
     r["signature"] = f"{item['label']} [{tag}]"
+    if tag != "reconnect" and r.get("sites"):
+        r["signature"] += " " + r["sites"][0]
     return r
 
 
@@ -671,6 +782,7 @@ ASSUMPTIONS = [
     "per episode at most k packets are not lost (delivery budget k: 2 quick / 3 thorough); which ones and when is free",
     "arrival delays are reals in [0, 10] s after the transmission that caused them",
     "two timers due at exactly the same instant run in creation order (asyncio's heap gives no stronger guarantee)",
+    "loop latency (lat[...] queries): a timer due within 10 ms after the one being run may - solver's choice - run in the same loop iteration, before the callbacks the first deferred with call_soon",
 ]
 OUTSIDE = ["more than 3 concurrent callers / the 32-slot buffer overflow", "real threads (the threading.Lock is single-threaded here)", "dt.now() ties within one microsecond",
            "the impersonation notice (needs Command._puzzle's wall-clock payload)"]
